@@ -414,3 +414,56 @@ class TokenModel:
             val = Adt("value::Value", va["idx"], [payload_of(f["ty"]) for f in va["fields"]], kind)
             return Adt("parse::Token", self.wrapper["idx"], [val], self.wrapper["name"])
         return None
+
+
+# ---------------------------------------------------------------- the sequence parsers behind the two APIs
+_WORKERS = {}
+
+
+def seq_workers(crate):
+    """Which function parses the contents of a list / a vector for the value API and for the datum API, found by
+    role rather than by name: next_value resp. next_datum is evaluated on a ListOpen / VecOpen token, and the first
+    local call that receives the closing delimiter is the worker.  A worker is (function, type bindings): a generic
+    `parse_list_with::<A>` serves both APIs with different bindings.
+    Returns {("value" | "datum", "list" | "vector"): (fn, tyenv)} (missing keys = not found)."""
+    key = id(crate)
+    if key in _WORKERS:
+        return _WORKERS[key]
+    P = "parse::Parser::<R>::"
+    out = {}
+    tm = TokenModel(crate)
+    for api, fp in (("value", P + "next_value"), ("datum", P + "next_datum")):
+        f = crate.fn(fp)
+        if f is None or not tm.ok:
+            continue
+        for what, kind in (("list", "ListOpen"), ("vector", "VecOpen")):
+            tv = tm.make(kind, lambda ty: 0x29 if ty == "u8" else sim.Opq("payload"))
+            if tv is None:
+                continue
+            found = []
+
+            def hook(S, fn, bb, t, args, path, tv=tv, found=found):
+                nm = F.callee_names(t)
+                if P + "parse_whitespace" in nm:
+                    return ("value", ok(some(65)))
+                if P + "parse_token" in nm:
+                    return ("value", ok(tv))
+                c = t["callee"]
+                g = crate.fn(c.get("resolved") or c.get("path") or "")
+                if g is not None and g.path != fp and g.file.endswith("parse/mod.rs") and not scalar_fn(g) \
+                        and any(isinstance(S._deref(a, path), int) and S._deref(a, path) == 0x29 for a in args[1:]) \
+                        and not g.path.endswith("::end_seq"):
+                    found.append((g, S._callee_tyenv(t, g)))
+                    return ("stop", "worker")
+                return None
+
+            S = sim.Sim([crate], hooks={"call": hook}, inline=helper_inline(crate), max_depth=4, max_paths=2000)
+            try:
+                S.run(f)
+            except sim.Limit:
+                continue
+            uniq = {(g.path, tuple(sorted(te.items()))) for g, te in found}
+            if len(uniq) == 1:
+                out[(api, what)] = found[0]
+    _WORKERS[key] = out
+    return out
